@@ -741,7 +741,9 @@ class Response(StreamResponse):
             max_sync_chunk_size=self._zlib_executor_size,
             executor=self._zlib_executor,
         )
-        assert self._body is not None
+        if self._body is None:
+            # nothing to compress (e.g. web.Response(status=404))
+            return
         self._compressed_body = (
             await compressor.compress(self._body) + compressor.flush()
         )
